@@ -107,6 +107,10 @@ def body_factory(ctx):
                     os.unlink(f)
                 raise Violation("%s: a temporary file was left behind (system temp directory or the sampler's tempfile_path)" % what,
                                 files=[os.path.basename(f) for f in left])
+            held = faults.open_descriptors([tmp, tmp2])
+            if held:
+                raise Violation("%s: the process still holds open descriptors of temporary files (they accumulate until the "
+                                "process runs out of file descriptors)" % what, targets=held[:5])
             if sha(userfile) != user_hash:
                 raise Violation("%s: the user's prior-samples file was modified or removed" % what, now=sha(userfile))
 
